@@ -121,6 +121,7 @@ def write_evidence(prop, tier, seed, t0, R, C, violations, note=""):
             print_assumptions=("Closed under the global context x%d" % cs["closed"]) if not cs["axioms"] else ("Axioms: " + ", ".join(cs["axioms"])),
             checker_cmd="cd /verif/coq && coq_makefile -f _CoqProject -o Makefile && make -j16   (full .vo build; Properties/%s.v holds the statements, each closed by `exact` and followed by Print Assumptions)" % prop,
             trusted_base=TRUSTED,
+            coqchk=(dict(rc=C["coqchk"]["rc"], modules=C["coqchk"]["modules"], seconds=C["coqchk"]["seconds"], axioms=C["coqchk"]["axioms"] or "none") if C.get("coqchk") else "thorough tier only"),
             traces_validated_against_impl=s.get("histories", 0),
             evaluations=s.get("steps", 0),
             steps_compared_model_vs_impl=s.get("steps_compared", 0),
@@ -181,6 +182,8 @@ def verdict(prop, tier, seed, t0, R, C, results, write_replay, write_broken, kno
         broken.append("theorem file coq/Properties/%s.v no longer checks: %s" % (prop, (cs or {}).get("error", "missing")))
     if C.get("forbidden"):
         broken.append("forbidden constructs in the development: %s" % C["forbidden"][:3])
+    if C.get("coqchk") and (C["coqchk"]["rc"] != 0 or C["coqchk"]["axioms"]):
+        broken.append("coqchk does not accept the compiled development, or it relies on axioms: rc=%s axioms=%s %s" % (C["coqchk"]["rc"], C["coqchk"]["axioms"], C["coqchk"]["tail"][-300:]))
     def known_mismatch(m):
         text = "%s %s" % (m.get("op", ""), m.get("impl", ""))
         return any(e.get("status") == "open" and e.get("mismatch_regex") and re.search(e["mismatch_regex"], text) for e in known)
@@ -456,6 +459,8 @@ def c20_live(B, fails, samples):
         cli("query fundraising list-auction " + node, "all auctions", must=["FixedPriceAuction", "BatchAuction"])
         cli("query fundraising get-bid 2 1 " + node, "a matched bid", must=["is_matched: true", 'amount: "80"', "denomb", alice])
         cli("query fundraising list-bid --auction-id 1 " + node, "the bids of one auction", must=['amount: "40"', "BID_TYPE_BATCH_WORTH"])
+        cli("query fundraising list-bid --auction-id 2 " + node, "the bids of an auction whose bid is matched, no filter typed", must=['amount: "80"', "is_matched: true"])
+        cli("query fundraising list-auction --status AUCTION_STATUS_VESTING " + node, "auctions filtered by status", must=["AUCTION_STATUS_VESTING"])
         cli("query fundraising get-allowed-bidder 0 %s %s" % (alice, node), "an allow-list entry", must=['max_bid_amount: "500"', alice])
         cli("query fundraising list-allowed-bidder " + node, "allow-list entries", must=["max_bid_amount"])
         cli("query fundraising list-vesting-queue " + node, "vesting instalments", must=['amount: "60"', "released: true", "paying_coin"])
